@@ -342,6 +342,15 @@ pub fn render(rng: &mut Rng, gi: &GI) -> String {
 
 /// A textual expression that evaluates to exactly `v` (`sqrt(` forms when `v` is an exact root).
 fn expr_text(rng: &mut Rng, v: f64) -> String {
+    // nested forms: sqrt(sqrt(v^4)), sqrt(sqrt(sqrt(v^8))) when they evaluate back to exactly v
+    let q4 = v * v * v * v;
+    if v > 0.0 && q4.fract() == 0.0 && q4 < 1e12 && q4.sqrt().sqrt() == v && rng.chance(1, 2) {
+        let q8 = q4 * q4;
+        if q8 < 1e15 && q8.fract() == 0.0 && q8.sqrt().sqrt().sqrt() == v && rng.chance(1, 2) {
+            return format!("sqrt(sqrt(sqrt({})))", q8 as i64);
+        }
+        return format!("sqrt(sqrt({}))", q4 as i64);
+    }
     let sq = v * v;
     if sq.sqrt() == v && sq.fract() == 0.0 && sq < 1e6 && rng.chance(1, 2) {
         format!("sqrt({})", sq as i64)
